@@ -129,7 +129,7 @@ def replay_one(item):
                     continue
                 arr = numpy.asarray(arr)
                 n = nodes[pos - 1]
-                kind = {'b': 'b', 'i': 'i', 'f': 'f'}[n['dt']]
+                kind = dag.KIND[n['dt']]
                 if list(arr.shape) != n['sh'] or arr.dtype.kind.replace('u', 'i') != kind:
                     res.update(status='violation', key='shape-dtype:{}:{}'.format(n['op'], name), what='result shape/dtype {} {} differs from {} {}'.format(arr.shape, arr.dtype, n['sh'], n['dt']), cfg=name)
                     return res
@@ -160,9 +160,13 @@ def run(rep):
                            Ops='{"LoopSum","LoopConcat","Take","Inflate","Multiply","Add","IntToFloat","InsertAxis","Sum","Transpose","Diagonalize","Power"}',
                            LeafSet='{1, 2, 8, 13, 14, 20, 22, 23}', simulate=300 if quick else 3000, depth=11, seed=rep.seed + 12)
     loops = [p for p in loops if any(n['op'] in ('LoopSum', 'LoopConcat') for n in p)]
-    rep.lap('generated')
+    # extended vocabulary (complex dtype, ...), kept separate so that the base sample is unchanged
     k = 300 if quick else 4000
     sel = exprs.select(progs, k // 3, rng, need_arg=True) + exprs.select(sims, k // 3, rng, need_arg=True) + exprs.select(loops, k // 3, rng)
+    ext = exprs.extended(rep, rng, 'c02-ext', ['cx', 'einsum', 'poly', 'search', 'dyn'], k // 20, quick=quick)
+    rep.lap('generated')
+    for name, ps in ext.items():
+        sel += ps
     rep.constants['ExprBuilder'] = dict(exhaustive_programs=nexh, simulate_programs=len(sims), loop_programs=len(loops), selected=len(sel))
     metas = []
     jobs = []
@@ -231,5 +235,5 @@ def run(rep):
         rep.sample(dict(program=[[n['op'], n['d'], n['p'], n['sh'], n['dt']] for n in it[0]], outputs=it[1], structure=it[2]))
     rep.rule = ('cases = (program, output tuple structure) pairs from the ExprBuilder TLA+ machine, each compiled under 10-14 compile '
                 'configurations and called 4 times; non-trivial = at least two non-leaf nodes')
-    rep.assumptions += ['ArraySem.tla is the reference semantics; transcendental functions / complex dtype outside the vocabulary',
+    rep.assumptions += ['ArraySem.tla is the reference semantics; transcendental functions outside the vocabulary',
                         'programs whose model value is undefined at an environment are not judged there']
